@@ -414,7 +414,7 @@ fn lax_check(start: Start, b: &[u8], rl: &RefOut, ctx: &mut Ctx) -> Result<(), F
     Ok(())
 }
 
-fn check(start: Start, b: &[u8], ctx: &mut Ctx) -> Result<(), Failure> {
+pub fn check(start: Start, b: &[u8], ctx: &mut Ctx) -> Result<(), Failure> {
     let r = refdec::decode(start, b, false);
     let rl = refdec::decode(start, b, true);
     let res = catch(|| {
@@ -438,11 +438,18 @@ impl Property for C04 {
     fn id(&self) -> &'static str {
         "C04"
     }
+    fn post(&self, tier: Tier, seed: u64, root: &std::path::Path) -> Result<Value, Failure> {
+        if tier == Tier::Thorough {
+            crate::fuzzapi::run_fuzz_campaign("C04", root, seed, 400_000, 8)
+        } else {
+            Ok(Value::Null)
+        }
+    }
     fn tape_len(&self) -> usize {
         640
     }
     fn cases(&self, tier: Tier) -> u64 {
-        tier.pick(400_000, 8_000_000)
+        tier.pick(3_000_000, 60_000_000)
     }
     fn run_tape(&self, tape: &[u8], ctx: &mut Ctx) -> Result<(), Failure> {
         let mut t = Tape::new(tape);
